@@ -116,6 +116,16 @@ CLAIMED = {
          "Generated-input search: 25k histories (about 75k compared queries) quick / 1M thorough, cases as in C02 (duplicate keys, NULL keys, multi-column / DESC / prefix / UNIQUE indexes, updates of indexed columns, deletes, DROP+CREATE INDEX); a floor requires that at least half of the cases run statements against a disk-backed index.",
          "The 100k-row table-size threshold selects the same DiskBacked code and is not generated; the in-memory twin is the reference (C02 compares it with index-free execution).",
          "DESIGN.md §6 C16"),
+ "C25": ("exploration",
+         "differential testing of a query-result-cache client: generated read/write histories over confusable query texts are answered through QueryResultCache keyed by QuerySignature::from_sql with the library's table extractor (as the in-repo adapter does), and every cache hit is compared with an uncached execution on the same database state",
+         "Generated-input search: 60k histories (about 600k reads) quick / 1.5M thorough; 26 query shapes placing table references in subqueries (WHERE, select list, HAVING, ORDER BY, JOIN ON, CASE ...), joins, CTEs, views, set-operation arms, derived tables; literal variants differing in case / inner whitespace; spelling variants in keyword case, spacing and comments; writes INSERT/UPDATE/DELETE/DROP+CREATE.",
+         "The cache client is written like tests/sqllogictest/db_adapter.rs (invalidate_table(stmt.table_name) on writes); a mismatch counts only when two uncached executions agree with each other.",
+         "DESIGN.md §6 C25"),
+ "C26": ("exploration",
+         "model-based (stateful) testing of access control: histories of CREATE ROLE / GRANT / REVOKE executed as admin interleaved with statements executed under non-admin roles in every access shape; a model held(role, object, privilege) follows the successful GRANT/REVOKE statements",
+         "Generated-input search: 120k histories (about 1M role statements) quick / 3M thorough over 140 access shapes (scans, index scans, joins, subqueries in every clause, views, CTEs, set operations, derived tables, INSERT..SELECT, UPDATE/DELETE with subqueries, upserts, TRUNCATE); a statement lacking a needed privilege must fail and leave observe(db) unchanged; non-interference probes on perturbed clones detect reads of unprivileged tables; writes are judged by their effects.",
+         "The converse (all privileges held => no PermissionDenied) is demanded for plain tables only; references the engine never has to evaluate are counted, not demanded.",
+         "DESIGN.md §6 C26"),
  "C15": ("exploration",
          "invariant testing of index structures: after every statement of a generated history the PK hash index, UNIQUE hash indexes and every user index map are compared with a rebuild from scratch on a clone",
          "Generated-input search: 250k histories quick / 6M thorough with position-shifting deletes, updates of indexed/key columns, DELETE-all/TRUNCATE, INSERT..SELECT; uses only public APIs (primary_key_index, unique_indexes, get_index_data, rebuild_indexes).",
